@@ -81,6 +81,10 @@ def strategy_(draw, thorough):
         aopts.append({"rgo": draw(frames.row_group_offsets(b["n"])),
                       "compression": draw(st.sampled_from(frames.CODECS)),
                       "via": draw(st.sampled_from(["write", "write", "write_row_groups"]))})
+    for a in aopts:
+        if draw(st.integers(0, 3)) == 0:
+            # the same columns in another order (columns are matched by name)
+            a["col_order"] = draw(st.permutations(list(range(len(fr0["cols"])))))
     if opts.get("write_index") is False and fr0.get("index") is None:
         # appended frames whose (unwritten) row labels repeat or are out of order, e.g. the result of a concat
         for a in aopts:
@@ -183,6 +187,10 @@ def run_case(case):
                 pre_ok = True
             else:
                 ao = case["append_opts"][k - 1]
+                if ao.get("col_order") and len(ao["col_order"]) == len(fr["cols"]):
+                    names_ = [c["name"] for c in fr["cols"]]
+                    df = df[[names_[i] for i in ao["col_order"]] + [c for c in df.columns if c not in names_]]
+                    labels.append("append_with_permuted_columns")
                 odd_labels = bool(ao.get("row_labels")) and copts.get("write_index") is False and not fr.get("index") and len(df) > 0
                 if odd_labels:
                     lab = ao["row_labels"]
